@@ -26,7 +26,9 @@ Record cabp_ok (p : cabp) : Prop := mkOk {
   ok_folders : Forall (in_range cabfh_widths) (c_folders p);
   ok_nfolders : zlen (c_folders p) = fld cabh_ix_NumFolders (c_hv p);
   ok_data : zlen (c_data p) = fc_wrap32 (fld cabh_ix_TotalSize (c_hv p) - fld cabh_ix_OffsetFiles (c_hv p));
-  ok_sig : if cab_has_sig p then zlen (c_sig p) = fld cabsh_ix_SignatureSize (res_sv (c_res p)) else c_sig p = [] }.
+  ok_sig : if cab_has_sig p then zlen (c_sig p) = fld cabsh_ix_SignatureSize (res_sv (c_res p)) else c_sig p = [];
+  (* since relic commit 6b49488: the folder table ends at coffFiles, and coffFiles <= cbCabinet *)
+  ok_layout : fld cabh_ix_OffsetFiles (c_hv p) = cab_P p /\ fld cabh_ix_OffsetFiles (c_hv p) <= fld cabh_ix_TotalSize (c_hv p) }.
 
 Lemma nonneg_cabh : nonneg_ws cabh_widths. Proof. repeat constructor; lia. Qed.
 Lemma nonneg_cabrh : nonneg_ws cabrh_widths. Proof. repeat constructor; lia. Qed.
@@ -167,6 +169,7 @@ Proof.
   destruct (parse_reserve_sound _ _ _ _ Hb0 E1) as (S1 & Fr & Pr).
   destruct (cab_multipart _) eqn:Emu; try discriminate.
   destruct (cab_unsupported_flags _) eqn:Efl; try discriminate.
+  destruct (cab_bad_layout _ _ _) eqn:Ely; try discriminate.
   assert (Hb1 : all_bytes s1 = true).
   { rewrite S1, all_bytes_app in Hb0. apply andb_true_iff in Hb0. exact (proj2 Hb0). }
   destruct (read_folders folder_fuel 0 (fld cabh_ix_NumFolders hv) s1) as [[fs s2]| |] eqn:E2; cbn [bind fst snd] in H; try discriminate.
@@ -211,6 +214,12 @@ Proof.
     + rewrite Z2 by (unfold folder_fuel; lia). lia.
     + apply zlen_ztake. lia.
     + unfold cab_has_sig. cbn [c_res c_sig]. exact Sg2.
+    + unfold cab_bad_layout, cab_hdr_end, cab_hdr_end_has_reserve, cab_hdr_end_reserve in Ely. unfold cab_has_reserve in Fr.
+      unfold cab_P, cabh_size, cabrh_size, cabsh_size, cabfh_size in *. cbn [c_res c_folders fst] in *.
+      rewrite Z2 by (unfold folder_fuel; lia).
+      destruct res as [[[rv sv] pad]|].
+      * destruct Pr as (-> & _). rewrite Fr in Ely. cbn [fld nth cabrh_ix_HeaderSize] in Ely. lia.
+      * rewrite Fr in Ely. lia.
   - unfold cab_write. cbn [c_hv c_res c_folders c_data c_sig].
     rewrite <- (ztake_zdrop cabh_size f) at 1. rewrite Eh. f_equal.
     rewrite S1 at 1. f_equal. rewrite S2 at 1. f_equal.
